@@ -217,6 +217,9 @@ func (s *Solver) Check(extra *Term, isAssert bool) SatResult {
 	return res
 }
 
+// Predefine makes sure t is defined at path level (outside any check scope).
+func (s *Solver) Predefine(t *Term) { s.define(t) }
+
 // EndCheck pops the scope opened by Check.
 func (s *Solver) EndCheck() { s.send("(pop 1)") }
 
@@ -248,10 +251,23 @@ func (s *Solver) GetValues(vars []*Term) map[string]uint64 {
 	if len(vars) == 0 {
 		return out
 	}
+	// never declare/define inside the check scope (it would be popped): unknown variables are unconstrained
 	var names []string
+	var asked []*Term
 	for _, v := range vars {
-		names = append(names, s.define(v))
+		if v.op == OpVar && !s.vars[v.name] {
+			continue
+		}
+		if v.op != OpVar && v.op != OpConst && !s.defined[v.id] {
+			panic("GetValues on a term that was not predefined")
+		}
+		names = append(names, v.ref())
+		asked = append(asked, v)
 	}
+	if len(names) == 0 {
+		return out
+	}
+	vars = asked
 	// batch
 	s.send("(get-value (" + strings.Join(names, " ") + "))")
 	lines := s.sync()
